@@ -2,7 +2,7 @@
 # usage: tools/seed_eval.sh <patch.diff> <tier> <seed> <check-id>...
 # Applies a seeded change to /repo's working tree, runs the given checks, restores the tree.
 # Never commits anything in /repo.  Prints one line per check: id rc keys...
-patch=$1; tier=$2; seed=$3; shift 3
+patch=$(readlink -f "$1"); tier=$2; seed=$3; shift 3
 cd /verif
 if [ -n "$(git -C /repo status --porcelain -- src)" ]; then echo "repo working tree not clean" >&2; exit 2; fi
 restore() { git -C /repo checkout -- . ; }
